@@ -1004,8 +1004,8 @@ class NumberOrderedForm(Operator):
                         # c† * c = n_c
                         coeff = n_operator * coeff
                 else:
-                    # Creation operator, n_c * c† = c†
-                    coeff = coeff.xreplace({n_operator: One})
+                    # Creation operator, n_c * c† = c† and n_c * c * c† = 0
+                    coeff = coeff.xreplace({n_operator: Zero if orig_power else One})
                     if orig_power:
                         # c * c† = 1 - n_c
                         coeff = (One - n_operator) * coeff
